@@ -2,7 +2,7 @@
    macro requires a method `new` without parameters in the impl block. The function returns nothing; the translation returns
    its diagnostics (message texts of the source), in order. *)
 From Coq Require Import String List Bool Arith Lia.
-Require Import SV.Model.Imp SV.Model.GenImpCheck SV.Facts.ImpFacts SV.Facts.MacroRefine.
+Require Import SV.Model.GenTables SV.Model.Imp SV.Model.GenImpCheck SV.Facts.ImpFacts SV.Facts.MacroRefine.
 Import ListNotations.
 Open Scope string_scope.
 Open Scope list_scope.
@@ -143,4 +143,16 @@ Proof.
   eapply ev_match; [cmp 8|].
   do 3 (eapply ev_arm_miss; [cbn [pmatch value_eqb]; rewrite ?E1, ?E2, ?E3; reflexivity|]).
   eapply ev_arm_hit; [reflexivity|]. cmp 14.
+Qed.
+
+(* two translators, one table: the regenerated table of outcome names (GenTables.reply_on_tag_of_string, rendered by translate.py
+   from the arms of `ReplyOn::new`) is the function proved of the translated `ReplyOn::new` *)
+Definition outcome_tag (o : outcome) : string := match o with OSuccess => "Success" | OError => "Error" | OAlways => "Always" end.
+Theorem regenerated_outcome_table_is_the_translated_function s :
+  SV.Model.GenTables.reply_on_tag_of_string s = option_map outcome_tag (outcome_of_name s).
+Proof.
+  unfold SV.Model.GenTables.reply_on_tag_of_string, outcome_of_name.
+  rewrite (String.eqb_sym s "success"). destruct ("success" =? s); [reflexivity|].
+  rewrite (String.eqb_sym s "error"). destruct ("error" =? s); [reflexivity|].
+  rewrite (String.eqb_sym s "always"). destruct ("always" =? s); reflexivity.
 Qed.
